@@ -453,6 +453,15 @@ func (w *world) macro(tr *tracer, o opRec) {
 		}
 	}
 	w.execOp(o)
+	if w.realtime {
+		// ... and must still be ahead after the operation: otherwise what it did raced the real timer
+		for k := 1; k <= w.nq; k++ {
+			if qi := w.q[k]; qi.resp != nil && !qi.dlDone && time.Until(qi.resp.Deadline()) < time.Millisecond {
+				w.overtaken = true
+				return
+			}
+		}
+	}
 	tr.step(opAct{A: "op", O: o}, w.observe(false, o, o))
 }
 
